@@ -185,7 +185,11 @@ def run():
         core.expect_violation(ctx, 'CyclesContainer', cfg, w, 'CyclesContainer ' + w, workers=4)
     ctx.leg('A', invariants=invs, histories=len(items))
     nbad = 0
-    for part in core.pmap(_job, [(items[i::16], states) for i in range(16)]):
+    shares = []
+    for i in range(16):
+        mine = items[i::16]
+        shares.append((mine, {fam: core.states_for(states[fam], [h for _, f, h in mine if f == fam]) for fam in states}))
+    for part in core.pmap(_job, shares):
         for j, fam, diff in part:
             ctx.cov['evaluations'] += 1
             h = items[j][2]
